@@ -23,6 +23,8 @@ package vault
 // The file also holds the scheduling loop shared with the C18 harness (identifiers prefixed c19).
 
 import (
+	"context"
+	"github.com/openbao/openbao/sdk/v2/framework"
 	"fmt"
 	"encoding/json"
 	"strings"
@@ -507,9 +509,36 @@ func c19SealDeniedNs(t *testing.T, out *vh.Out) {
 // c19BatchUses: batch tokens are not stored, so a use count cannot be enforced on them: a create request (or a role) that
 // asks for a use-limited batch token must be refused — never answered with a token that is reported as num_uses = n and
 // serves any number of requests. Op line: batchuses <how> => refused | issued|uses:<requests it authorised, capped at n+3>
+// c19AuthFactory: a credential backend whose login returns an Auth with the requested use limit
+func c19AuthFactory(ctx context.Context, conf *logical.BackendConfig) (logical.Backend, error) {
+	b := &framework.Backend{BackendType: logical.TypeCredential, PathsSpecial: &logical.Paths{Unauthenticated: []string{"login"}}}
+	b.Paths = []*framework.Path{{
+		Pattern: "login",
+		Fields:  map[string]*framework.FieldSchema{"uses": {Type: framework.TypeInt}},
+		Callbacks: map[logical.Operation]framework.OperationFunc{
+			logical.UpdateOperation: func(ctx context.Context, req *logical.Request, d *framework.FieldData) (*logical.Response, error) {
+				return &logical.Response{Auth: &logical.Auth{Policies: []string{"default"}, DisplayName: "c19user", NumUses: d.Get("uses").(int),
+					LeaseOptions: logical.LeaseOptions{TTL: time.Hour, Renewable: true}}}, nil
+			},
+		},
+	}}
+	if err := b.Setup(ctx, conf); err != nil {
+		return nil, err
+	}
+	return b, nil
+}
+
 func c19BatchUses(t *testing.T, out *vh.Out) {
-	for _, how := range []string{"params", "params-emax0", "params-period0", "role", "role-default-batch"} {
-		_, c, root, _ := c19Setup(t)
+	for _, how := range []string{"params", "params-emax0", "params-period0", "role", "role-default-batch", "login-mount-batch"} {
+		var c *Core
+		var root string
+		if how == "login-mount-batch" {
+			// a LOGIN whose token type is forced to batch by the mount's token_type tuning, the auth method asking for a use limit
+			p := vhNewPhys(t)
+			c, _, root = vhNewCore(t, p, nil, func(conf *CoreConfig) { conf.CredentialBackends["c19auth"] = c19AuthFactory })
+		} else {
+			_, c, root, _ = c19Setup(t)
+		}
 		out.Reset()
 		const n = 1
 		var tok string
@@ -526,6 +555,17 @@ func c19BatchUses(t *testing.T, out *vh.Out) {
 			}
 			if cl, resp := vhReq(c, logical.UpdateOperation, "auth/token/create", root, d); cl == "ok" && resp != nil && resp.Auth != nil {
 				tok = resp.Auth.ClientToken
+			}
+		case "login-mount-batch":
+			if cl, _ := vhReq(c, logical.UpdateOperation, "sys/auth/c19b", root, map[string]any{"type": "c19auth", "config": map[string]any{"token_type": "batch"}}); cl != "ok" {
+				t.Fatalf("auth mount: %s", cl)
+			}
+			if cl, resp := vhReq(c, logical.UpdateOperation, "auth/c19b/login", "", map[string]any{"uses": n}); cl == "ok" && resp != nil && resp.Auth != nil {
+				if resp.Auth.TokenType == logical.TokenTypeBatch {
+					tok = resp.Auth.ClientToken
+				} else {
+					res = "service"
+				}
 			}
 		case "role", "role-default-batch":
 			tt := "batch"
